@@ -291,10 +291,17 @@ def step2 (st : State) (s d : List Name) : Op → State × Out
     | some (.dir es) =>
       match st.root.get d with
       | some (.file _) => fail st .DirectoryExpected
-      | some (.dir ds) =>
-        (match mergeEnts es ds with
-         | none => fail st .OperationFailed     -- loose: file/directory conflict inside
-         | some m => upd st ((setAt st.root d (.dir m)).del s))
+      | some (.dir _) =>
+        -- the complete source content ends up at the destination: take the source out of
+        -- the tree first, then merge it into what is (then) at the destination.  This matters
+        -- when `d` is an ancestor of `s` and the source holds an entry named like itself.
+        let t1 := st.root.del s
+        (match t1.get d with
+         | some (.dir ds) =>
+           (match mergeEnts es ds with
+            | none => fail st .OperationFailed     -- loose: file/directory conflict inside
+            | some m => upd st (setAt t1 d (.dir m)))
+         | _ => fail st .OperationFailed)
       | none =>
         if !create then fail st .ResourceNotFound
         else match st.root.get (parentOf d) with
